@@ -142,9 +142,6 @@ def gen(tier, rng):
           "using F = scaled_integer<std::int32_t, power<-16>>; using G = scaled_integer<std::int64_t, power<-16>>;"
           " auto sum = G{wrap<F>(a)} + wrap<F>(b); return static_cast<float>(sum >> constant<1>{});",
           ["return static_cast<float>(std::int64_t{a} + b) * (1.F / 131072.F);", "return static_cast<float>(std::int64_t{a} + b) / 131072.F;"])
-        D("zero_cost_free_functions/rounding_overflow_int-multiply", "int", [("int", "a"), ("int", "b")],
-          "using T = rounding_integer<overflow_integer<int, undefined_overflow_tag>, native_rounding_tag>; return unwrap(wrap<T>(a) * wrap<T>(b));",
-          ["return a * b;"])
     # result representation facts
     for nest in NESTINGS:
         for A in reps:
